@@ -62,6 +62,17 @@ std::string seams_describe_live(size_t max_items) {
 
 void seams_forget_live() { live().clear(); g_seams.live_bytes = 0; g_seams.live_blocks = 0; }
 
+uint64_t g_alloc_epoch = 0;
+int seams_block_owner_ex(const void *addr, uintptr_t *lo, uintptr_t *hi) {
+    auto &m = live();
+    uintptr_t a = (uintptr_t) addr;
+    auto it = m.upper_bound(a);
+    if (it == m.begin()) return -1;
+    --it;
+    uintptr_t end = it->first + (it->second.size ? it->second.size : 1);
+    if (a < end) { *lo = it->first; *hi = end; return it->second.owner; }
+    return -1;
+}
 int seams_block_owner(const void *addr) {
     auto &m = live();
     uintptr_t a = (uintptr_t) addr;
@@ -86,7 +97,7 @@ static bool should_fail(uintptr_t site) {
 static void note_alloc(void *p, size_t n, uintptr_t site) {
     SimSeams &s = g_seams;
     Block b; b.size = n; b.seq = s.n_total; b.owner = s.owner; b.site = site;
-    live()[(uintptr_t) p] = b;
+    live()[(uintptr_t) p] = b; g_alloc_epoch++;
     s.live_bytes += (int64_t) n; s.live_blocks++;
     if (s.live_bytes > s.peak_bytes) s.peak_bytes = s.live_bytes;
 }
@@ -97,7 +108,7 @@ static bool note_free(void *p) {
     auto it = m.find((uintptr_t) p);
     if (it == m.end()) return false;
     s.live_bytes -= (int64_t) it->second.size; s.live_blocks--;
-    m.erase(it);
+    m.erase(it); g_alloc_epoch++;
     return true;
 }
 
